@@ -169,6 +169,27 @@ func runSync(name string, args []string, out, errOut io.Writer) error {
 		return err
 	}
 
+	if !config.force {
+		// A preview removes nothing, so the incremental check below would
+		// compare a repository with a shard this preview has just announced to
+		// remove (a repository that moved between roots keeps its name) and
+		// call it up to date, although applying the plan removes that shard
+		// first and then indexes the repository.
+		pruned := make(map[string]bool, len(actions))
+		for _, action := range actions {
+			pruned[action.Name] = true
+		}
+		var rest []repositorySpec
+		for _, repo := range repositories {
+			if pruned[repo.Name] {
+				fmt.Fprintf(out, "Would index %q from %s\n", repo.Name, repo.Source)
+				continue
+			}
+			rest = append(rest, repo)
+		}
+		repositories = rest
+	}
+
 	if err := indexRepositories(repositories, gitindex.Options{
 		BuildOptions:       config.buildOptions,
 		Branches:           splitBranches(config.branches),
